@@ -36,5 +36,18 @@ def main(argv):
         json.dump(shard.result(), f)
     return status
 
+def main_with_coverage(argv):
+    # diagnostic only (tools/coverage_gaps.py): which lines of the repository's modules does this workload reach?
+    import coverage
+    from vk import paths
+    d = os.environ['VERIF_COVERAGE']
+    cov = coverage.Coverage(data_file=os.path.join(d, 'cov.%d' % os.getpid()), include=[os.path.join(paths.REPO, 'skoolkit', '*')], branch=True)
+    cov.start()
+    try:
+        return main(argv)
+    finally:
+        cov.stop()
+        cov.save()
+
 if __name__ == '__main__':
-    sys.exit(main(sys.argv[1:]))
+    sys.exit(main_with_coverage(sys.argv[1:]) if os.environ.get('VERIF_COVERAGE') else main(sys.argv[1:]))
